@@ -1,5 +1,3 @@
-//go:build wip_c02
-
 package props
 
 import (
@@ -68,8 +66,8 @@ type c02Model struct {
 	connect    *kit.Func  // options -> (*nats.Conn, error)
 	connectURI *types.Var // options field that reaches nats.Connect
 
-	fetch                  *kit.Func // (conn, parent, id, type, includeDeleted) -> ([]NodeEdge, error)
-	aParent, aID, aTyp, aDel int     // argument positions of fetch
+	fetch                    *kit.Func // (conn, parent, id, type, includeDeleted) -> ([]NodeEdge, error)
+	aParent, aID, aTyp, aDel int       // argument positions of fetch
 
 	nodeEdge             *types.Named
 	pointsF, edgePointsF *types.Var // point lists of data.NodeEdge
@@ -571,43 +569,7 @@ func (m *c02Model) typeSides(r1 *kit.Rule) {
 		if uri == nil {
 			return "?"
 		}
-		uri = ast.Unparen(uri)
-		// REMOTE: <recv>.<config>.<uri field>
-		if sel, ok := uri.(*ast.SelectorExpr); ok {
-			if kit.ObjOf(m.info, sel) == types.Object(m.uriF) {
-				if in, ok := ast.Unparen(sel.X).(*ast.SelectorExpr); ok && kit.ObjOf(m.info, in) == types.Object(m.cfgF) {
-					return c02Remote
-				}
-			}
-			return "?"
-		}
-		// LOCAL: a value obtained by a request over a LOCAL connection
-		if id, ok := uri.(*ast.Ident); ok {
-			o := kit.ObjOf(m.info, id)
-			var def *ast.CallExpr
-			n := 0
-			ast.Inspect(s.f.Body, func(x ast.Node) bool {
-				as, ok := x.(*ast.AssignStmt)
-				if !ok {
-					return true
-				}
-				for _, l := range as.Lhs {
-					if kit.ObjOf(m.info, l) == o {
-						n++
-						if len(as.Rhs) == 1 {
-							def, _ = ast.Unparen(as.Rhs[0]).(*ast.CallExpr)
-						}
-					}
-				}
-				return true
-			})
-			if n == 1 && def != nil && len(def.Args) >= 1 && c02ConnFirst(m.clientFn(m.info, def)) {
-				if sd := m.connSide(def.Args[0]); sd != "" {
-					return sd
-				}
-			}
-		}
-		return "?"
+		return m.uriSide(s.f, uri, 0)
 	}
 
 	// fixpoint: a field is typed once all its non-nil sources are typed alike
@@ -693,6 +655,55 @@ func (m *c02Model) typeSides(r1 *kit.Rule) {
 			m.rootSide[fld] = u[0]
 		}
 	}
+}
+
+// uriSide types the URI a connection is opened with: the config field tagged
+// point:"uri" (REMOTE), or a value obtained by a request over an already
+// typed connection (that connection's instance).
+func (m *c02Model) uriSide(f *kit.Func, e ast.Expr, depth int) string {
+	if depth > 3 {
+		return "?"
+	}
+	e = ast.Unparen(e)
+	switch x := e.(type) {
+	case *ast.SelectorExpr:
+		if kit.ObjOf(m.info, x) == types.Object(m.uriF) {
+			if in, ok := ast.Unparen(x.X).(*ast.SelectorExpr); ok && kit.ObjOf(m.info, in) == types.Object(m.cfgF) {
+				return c02Remote
+			}
+		}
+	case *ast.CallExpr:
+		if len(x.Args) >= 1 && c02ConnFirst(m.clientFn(m.info, x)) {
+			if sd := m.connSide(x.Args[0]); sd != "" {
+				return sd
+			}
+		}
+	case *ast.Ident:
+		o := kit.ObjOf(m.info, x)
+		var def ast.Expr
+		n := 0
+		ast.Inspect(f.Body, func(y ast.Node) bool {
+			as, ok := y.(*ast.AssignStmt)
+			if !ok {
+				return true
+			}
+			for i, l := range as.Lhs {
+				if kit.ObjOf(m.info, l) == o {
+					n++
+					if len(as.Rhs) == 1 {
+						def = as.Rhs[0]
+					} else if len(as.Rhs) == len(as.Lhs) {
+						def = as.Rhs[i]
+					}
+				}
+			}
+			return true
+		})
+		if n == 1 && def != nil {
+			return m.uriSide(f, def, depth+1)
+		}
+	}
+	return "?"
 }
 
 // optionsLiteral resolves the argument of the connect call to the composite
@@ -873,6 +884,25 @@ func (m *c02Model) nodeField(e ast.Expr, node types.Object, fld *types.Var) bool
 	return ok && kit.ObjOf(m.info, sel) == types.Object(fld) && kit.ObjOf(m.info, sel.X) == node
 }
 
+// passesListed: the self call hands over the range value, or list[key].
+func (m *c02Model) passesListed(call *ast.CallExpr, rs *ast.RangeStmt, list types.Object) bool {
+	if len(call.Args) < 1 {
+		return false
+	}
+	a := ast.Unparen(call.Args[0])
+	if rs.Value != nil {
+		if vo := kit.ObjOf(m.info, rs.Value); vo != nil && kit.ObjOf(m.info, a) == vo {
+			return true
+		}
+	}
+	if ix, ok := a.(*ast.IndexExpr); ok && rs.Key != nil {
+		if ko := kit.ObjOf(m.info, rs.Key); ko != nil && kit.ObjOf(m.info, ix.Index) == ko && kit.ObjOf(m.info, ix.X) == list {
+			return true
+		}
+	}
+	return false
+}
+
 func (m *c02Model) checkTransfers(r3 *kit.Rule) {
 	for _, t := range m.transfers {
 		f := t.f
@@ -901,7 +931,7 @@ func (m *c02Model) checkTransfers(r3 *kit.Rule) {
 			o.Undecided("connection of the send (`%s`) or of the listing (`%s`) is not a typed field", f.Str(t.send.Args[0]), f.Str(list.Args[0]))
 		case !m.nodeField(list.Args[m.aParent], t.node, m.idF) || !idConst || idc == "":
 			o.Undecided("the listing `%s` does not list the children of the node parameter", f.Str(list))
-		case rs.Value == nil || len(t.selfCall.Args) < 1 || kit.ObjOf(m.info, t.selfCall.Args[0]) != kit.ObjOf(m.info, rs.Value):
+		case !m.passesListed(t.selfCall, rs, lv):
 			o.Undecided("the recursive call does not pass the listed child")
 		case t.src == t.dest:
 			o.Violation("the node is sent to %s and its children are listed on %s as well (`%s`): a node that exists only on the other instance has no children here yet, so a subtree of depth k needs k sync periods to arrive", t.dest, t.src, f.Str(list))
@@ -1049,6 +1079,8 @@ func (m *c02Model) checkTransferCalls(r3 *kit.Rule) {
 				o.Undecided("the call is not reached by the flow analysis")
 			case origins[call]["?"]:
 				o.Undecided("the node `%s` does not provably come from one node fetch", arg)
+			case origins[call][t.dest] && len(got) > 1:
+				o.Undecided("`%s` comes from %s on different paths", arg, strings.Join(got, " / "))
 			case origins[call][t.dest]:
 				o.Violation("`%s` was fetched from %s and is handed to %s, which sends it to %s again and reads its children from %s: the node never reaches the other instance", arg, t.dest, t.f.Name, t.dest, t.src)
 			default:
@@ -1219,7 +1251,9 @@ func (m *c02Model) checkListings(r4 *kit.Rule) {
 		oa.Undecided("connection of a child listing is not a typed field")
 	case a.side == b.side:
 		oa.Violation("both child listings read the %s instance (`%s` and `%s`): children are never compared across the link", a.side, f.Str(a.call), f.Str(b.call))
-	case cst(a.call.Args[m.aID]) != cst(b.call.Args[m.aID]) || cst(a.call.Args[m.aTyp]) == "" || cst(a.call.Args[m.aTyp]) != cst(b.call.Args[m.aTyp]):
+	case cst(a.call.Args[m.aTyp]) == "" || cst(b.call.Args[m.aTyp]) == "":
+		oa.Undecided("type filter of a child listing is not a constant")
+	case cst(a.call.Args[m.aID]) != cst(b.call.Args[m.aID]) || cst(a.call.Args[m.aTyp]) != cst(b.call.Args[m.aTyp]):
 		oa.Violation("the child listings differ in id/type filter: `%s` vs `%s`; children of the filtered kind look missing on one side", f.Str(a.call), f.Str(b.call))
 	case cst(a.call.Args[m.aDel]) == "" || cst(b.call.Args[m.aDel]) == "":
 		oa.Undecided("includeDeleted argument is not a constant")
